@@ -170,6 +170,9 @@ def make_scenario(rnd, counts, nues_choices=None, fault=None, opts=None):
             # 139 is the id of the tunnel IE that follows the bit rate IE in the transfer: its encoding contains the octets 00 8B
             ue["ambrDl"] = num([139, 1 << 32, 4000000000000, 0, 256, 35584][s_ % 6])
             ue["ambr"] = [[6, 0, 1, 6, 0, 1], [0, 0, 1, 6, 0, 1], [1, 255, 255, 0, 0, 0]][(d + u) % 3]      # session AMBR: unit 0 = "value is not used"
+            if (d + u) % 2 == 1:
+                # later-release IEs behind the Accept's tabulated ones (serving PLMN rate control = 41, a header compression configuration)
+                ue["acceptTail"] = [[0x18, 2, 0x00, 0x29], [0x18, 2, 0x29, 0x22, 0x66, 3, 0x29, 0x7B, 0x00]][(d + u) // 2 % 2]
             ue["setupMsgNas"] = (d + u) % 2 == 1       # another NAS message in the message-level NAS-PDU IE of the setup request
             if opts.get("slow") and u == opts["slow"] - 1:
                 ue["setupDelay"] = 17                  # the SMF answers this UE's session request after 17 s
